@@ -275,6 +275,8 @@ func doVolumeBasedDeletion(ingestNodeDir string, allowedVolumeGB uint64, deletio
 	segmentsToDelete := make(map[string]*structs.SegMeta)
 	metricSegmentsToDelete := make(map[string]*structs.MetricsMeta)
 
+	// oldest first: stop at the first segment that does not fit into the volume still to be deleted
+deleteLoop:
 	for _, metaEntry := range allEntries {
 		switch entry := metaEntry.(type) {
 		case *structs.MetricsMeta:
@@ -282,14 +284,14 @@ func doVolumeBasedDeletion(ingestNodeDir string, allowedVolumeGB uint64, deletio
 				metricSegmentsToDelete[entry.MSegmentDir] = entry
 				volumeToDeleteInBytes -= entry.BytesReceivedCount
 			} else {
-				break
+				break deleteLoop
 			}
 		case *structs.SegMeta:
 			if entry.BytesReceivedCount < volumeToDeleteInBytes {
 				segmentsToDelete[entry.SegmentKey] = entry
 				volumeToDeleteInBytes -= entry.BytesReceivedCount
 			} else {
-				break
+				break deleteLoop
 			}
 		}
 	}
